@@ -1112,6 +1112,9 @@ class SelRun:
         routes = ["file", "file", "cli-group-by"]
         if effs[0] and all(e == effs[0] for e in effs):
             routes += ["cli-accounts", "cli-accounts"]
+        if not any(effs):
+            # no selector in force: also as the documented empty `--accounts` override over a file full of selectors
+            routes += ["cli-empty", "cli-empty"]
         cfg["route"] = rng.choice(routes)
         return {"fam": "selrun", "op": "run", "kind": "sel:" + kind, "sel_kinds": sorted(set(kinds or [kind])), "cfg": cfg,
                 "txns": txns, "layout": layout, "text": common.render_journal(txns, layout),
@@ -1200,6 +1203,9 @@ class SelRun:
         route = case["cfg"].get("route", "file")
         if route == "cli-group-by":
             cfg["ov_group_by"] = cfg.get("group_by", "month")
+        elif route == "cli-empty":
+            cfg = dict(base, sel_global=["zzz:never:posted"], sel_equity=["zzz:other"], sel_balance=["zzz:b"], sel_register=["zzz:r"],
+                       sel_balgrp=["zzz:g"], ov_accounts=[])
         elif route == "cli-accounts":
             lst = eff_sel(case["cfg"], "balance")
             cfg = dict(base, sel_global=["zzz:never:posted"], sel_equity=["zzz:other"], ov_accounts=lst)
